@@ -310,6 +310,8 @@ class CFG:
 
     def dominators(self, disabled=None, include_exc=True):
         """dict node id -> set of dominator ids (only for nodes reachable from entry)."""
+        if not disabled and include_exc and getattr(self, "_dom_cache", None) is not None:
+            return self._dom_cache
         reach = self.reachable(self.entry.id, disabled=disabled, include_exc=include_exc)
         order = sorted(reach)
         dom = {n: set(reach) for n in order}
@@ -329,6 +331,8 @@ class CFG:
                 if new != dom[n]:
                     dom[n] = new
                     changed = True
+        if not disabled and include_exc:
+            self._dom_cache = dom
         return dom
 
     def describe_path(self, p, limit=12):
